@@ -377,5 +377,74 @@ def rule_p7(repo):
     return res
 
 
+def rule_p8(repo):
+    """Identifiers address positions: a negative component would be resolved by Python from the end
+    of the list, so that `-1` passes the 'strictly earlier' test and names the last step."""
+    res = RuleResult('C02.P8', 'a step identifier is resolved to a position only after negative components are refused', floor=2)
+    f = repo.func('kernel/proof.py', 'Proof.find_item')
+    cfg = cfg_of(f.node)
+    idp = f.params()[1]
+    flow = flow_of(f.node)
+    lookups = []
+    for n in cfg.nodes:
+        for h in cfg.headers(n):
+            for x in ast.walk(h):
+                if isinstance(x, ast.Subscript) and isinstance(x.ctx, ast.Load) and (path_of(x.value) or '').endswith('.items') and \
+                        any(p.startswith(idp + '.id') for p in flow.resolve(x.slice)):
+                    lookups.append((n, x))
+    need(lookups, 'Proof.find_item: no lookup of items by an identifier component found')
+
+    def nonneg(e, pol):
+        # `any(i < 0 for i in id.id)` false, or `all(i >= 0 ...)` true, or `min(id.id) < 0` false
+        if isinstance(e, ast.Call) and call_name(e) in ('any', 'all') and e.args and isinstance(e.args[0], ast.GeneratorExp):
+            g = e.args[0]
+            cp = compare_parts(g.elt)
+            if cp and path_of(g.generators[0].iter) == idp + '.id' and isinstance(cp[2], ast.Constant) and cp[2].value == 0:
+                if call_name(e) == 'any' and cp[0] is ast.Lt:
+                    return not pol
+                if call_name(e) == 'all' and cp[0] is ast.GtE:
+                    return pol
+        cp = compare_parts(e)
+        if cp and isinstance(cp[1], ast.Call) and call_name(cp[1]) == 'min' and isinstance(cp[2], ast.Constant) and cp[2].value == 0:
+            return (cp[0] is ast.Lt and not pol) or (cp[0] is ast.GtE and pol)
+        return False
+    edges = cfg.establishing_edges(nonneg)
+    for n, x in lookups:
+        ok = bool(edges) and cfg.path_avoiding(n, skip_edges=edges) is None
+        res.add('kernel/proof.py :: Proof.find_item :: lookup(%s)' % src(x, 40), ok,
+                'reached only for identifiers without negative components' if ok else
+                '`%s` is reached for a negative identifier component: ItemID(-1) passes can_depend_on and names the last step, which '
+                'can thus cite itself' % src(x, 40), 'kernel/proof.py:%d' % n.lineno)
+    return res
+
+
+def rule_p9(repo):
+    res = RuleResult('C02.P9', 'a step that the checker skips cannot carry a stated theorem for later steps to cite', floor=1)
+    func = repo.func(THEORY, 'Theory._check_proof_item')
+    cfg = cfg_of(func.node)
+    seq = func.params()[2]
+    empties = [n for n in cfg.test_nodes() if (lambda cp: cp and cp[0] is ast.Eq and path_of(cp[1]) == seq + '.rule' and
+                                               isinstance(cp[2], ast.Constant) and cp[2].value == '')(compare_parts(n.ast))]
+    need(empties, '_check_proof_item: branch for the empty rule not found')
+
+    def th_none(e, pol):
+        cp = compare_parts(e)
+        return bool(cp) and path_of(cp[1]) == seq + '.th' and isinstance(cp[2], ast.Constant) and cp[2].value is None and \
+            ((cp[0] is ast.Is and pol) or (cp[0] is ast.IsNot and not pol))
+    edges = cfg.establishing_edges(th_none)
+    for t in empties:
+        # from the empty-rule branch, normal completion without any derivation requires th is None
+        starts = [b for b, l in t.succ if l == 'true']
+        derive = [n for n in cfg.nodes if n.kind == 'stmt' and isinstance(n.ast, ast.Assign) and any(is_name(x, 'res_th') for x in n.ast.targets)]
+        reach = cfg.reach_from(starts, skip_nodes=derive, skip_edges=edges)
+        ok = cfg.exit.id not in reach
+        res.add('%s :: Theory._check_proof_item :: empty-rule :: no-stated-theorem' % THEORY, ok,
+                'an empty line completes only when it states no theorem' if ok else
+                'a step with the empty rule is accepted unchecked whatever theorem it states; a later step can cite it: '
+                '[0: "" th |- false; 1: substitution {} from 0] is accepted', '%s:%d' % (THEORY, t.lineno))
+    return res
+
+
 def rules(repo):
-    return [rule_p1(repo), rule_p2(repo), rule_p3(repo), rule_p4(repo), rule_p5(repo), rule_p6(repo), rule_p7(repo)]
+    return [rule_p1(repo), rule_p2(repo), rule_p3(repo), rule_p4(repo), rule_p5(repo), rule_p6(repo), rule_p7(repo),
+            rule_p8(repo), rule_p9(repo)]
